@@ -187,8 +187,8 @@ theorem Sim.stmts_step (f : Nat) (ihRvs : RvToGoals V img K f) (ihCall : CallGoa
   | setReg r v => exact stmt_setReg f ihRv r v hst.1 hst.2
   | units m => exact stmt_units f m
   | actAll k => exact stmt_actAll f k
-  | setDefault => exact stmt_setDefault f
-  | action k ops => exact stmt_action f ihOs k ops hst
+  | setDefault w => exact stmt_setDefault f w
+  | action k w ops => exact stmt_action f ihOs k w ops hst
   | get name => exact stmt_get f ihRv name hst
   | wait => exact stmt_wait f
   | timeAt ps => exact stmt_timeAt f ps
@@ -626,7 +626,7 @@ def c01Script : Block := Block.ofList [
     (Block.ofList [.print (.lit (.str "big")),
       .ite (.expr (.bin .gt (.var "x") (.lit (.int 5))))
         (Block.ofList [.println (some (.lit (.str "huge")))])
-        (some (Block.ofList [.action .set (.cons (.group (.str "g")) .nil)]))])
+        (some (Block.ofList [.action .set true (.cons (.group (.str "g")) .nil)]))])
     (some (Block.ofList [.print (.lit (.str "small"))])),
   .repeat_ (.count (.lit (.int 3)))
     (Block.ofList [.assign "x" (.expr (.bin .add (.var "x") (.lit (.int 1)))), .print (.var "x")]),
@@ -732,18 +732,18 @@ def c01Script2 : Block := Block.ofList [
   .setReg .time (.lit (.int 500)), .wait, .setReg .time (.lit (.int 0)),
   .get (.lit (.str "a")),
   .setReg .duration (.var "N"),
-  .action .set (.cons (.zone (.str "z") ⟨.lit (.int 1), some (.expr (.bin .add (.var "N") (.lit (.int 1))))⟩)
+  .action .set true (.cons (.zone (.str "z") ⟨.lit (.int 1), some (.expr (.bin .add (.var "N") (.lit (.int 1))))⟩)
     (.cons (.light (.str "a")) .nil)),
-  .action .set (.cons (.matrixInline (.str "m") (some ⟨.lit (.int 0), none⟩)
+  .action .set true (.cons (.matrixInline (.str "m") (some ⟨.lit (.int 0), none⟩)
     (some ⟨.lit (.int 0), some (.lit (.int 1))⟩) false) .nil),
   .repeat_ .forever (Block.ofList [
-    .action .set (.cons (.matrixBlock (.str "m") (Block.ofList [
+    .action .set true (.cons (.matrixBlock (.str "m") (Block.ofList [
       .setReg .hue (.lit (.int 1000)),
       .stage (some ⟨.lit (.int 1), none⟩) none false,
       .ite (.reg .hue) (Block.ofList [.brk]) none])) .nil),
     .print (.lit (.str "not reached"))]),
-  .setDefault,
-  .action .off (.cons (.light (.var "who")) (.cons (.group (.str "g")) (.cons (.location (.str "home")) .nil))),
+  .setDefault true,
+  .action .off true (.cons (.light (.var "who")) (.cons (.group (.str "g")) (.cons (.location (.str "home")) .nil))),
   .actAll .set]
 
 
@@ -1578,7 +1578,7 @@ blocks, `Sem` said "unknown routine f") -/
 
 def matScript : Block := Block.ofList [
   .setReg .hue (.lit (.int 10)),
-  .action .set (.cons (.matrixBlock (.str "m") (Block.ofList [
+  .action .set true (.cons (.matrixBlock (.str "m") (Block.ofList [
     .defRoutine "f" [] (Block.ofList [.print (.lit (.int 7))]),
     .stage (some ⟨.lit (.int 0), none⟩) none false])) .nil),
   .call "f" [] .nil,
